@@ -585,4 +585,37 @@ theorem stop_completes (cfg : Cfg) (k : Kind) (cap idx : Nat) (hg : RunGuarded c
   refine ⟨hex, hd.1, hc.2.2.1, hd.2.1, fun hkk => ⟨hd.2.2 hkk, ?_⟩⟩
   exact (lane_start_order cfg k cap idx hg l' hr').2.2
 
+/-! ### bounded queues (round-4 seeds) -/
+
+/-- `bounded_lane_accepts_below_capacity`: a line, multi-line lane or runner that is not stopped accepts a call whenever its
+queue HOLDS fewer calls than its bound (or is unbounded) — the call the consumer is executing has left the queue and does not
+count; so `full` is answered only when `cap` calls are waiting -/
+theorem bounded_lane_accepts_below_capacity (cfg : Cfg) (l : Lane) (id : Nat) (enq : Bool) (hk : l.kind ≠ .pchan)
+    (hid : l.next ≤ id) (hs : l.stopped = false) (hc : l.cap = 0 ∨ l.queue.length < l.cap) :
+    l.step cfg (.submit id enq) = some (l.accept id) := by
+  have h1 : ¬ id < l.next := Nat.not_lt.2 hid
+  have h2 : (l.kind == .pchan) = false := by
+    cases hkk : l.kind <;> simp_all
+  have h3 : ¬ (0 < l.cap ∧ l.cap ≤ l.queue.length) := by
+    rcases hc with h | h <;> omega
+  simp [Lane.step, h1, h2, hs, h3]
+
+/-- and conversely `full` from such a lane means exactly that: `cap` calls are waiting -/
+theorem full_only_at_capacity (cfg : Cfg) (l : Lane) (id : Nat) (enq : Bool) (hk : l.kind ≠ .pchan)
+    (h : l.step cfg (.submit id enq) = some (l.reject id .full)) : 0 < l.cap ∧ l.cap ≤ l.queue.length := by
+  have h2 : (l.kind == .pchan) = false := by
+    cases hkk : l.kind <;> simp_all
+  simp only [Lane.step, h2] at h
+  split at h
+  · cases h
+  · simp only [Bool.false_eq_true, if_false] at h
+    split at h
+    · have := Option.some.inj h
+      simp [Lane.reject] at this
+    · split at h
+      · rename_i hcap
+        simpa using hcap
+      · have := Option.some.inj h
+        simp [Lane.reject, Lane.accept] at this
+
 end Nv.C14
